@@ -262,7 +262,9 @@ def owners(div):
     if kind == "crash" and fn == "wincmd":
         return {"C18"}
     if kind == "crash":
-        return {"C14", "C05"}
+        # the process running the library died (or was replaced) inside this call: memory safety / "no crash" (C14, C05),
+        # and whatever the call itself promises - a start that takes the caller down is not "all or nothing"
+        return {"C14", "C05"} | STATE_OWNER.get(fn, set())
     if kind in ("infra", "badscript", "badenv", "garbled"):
         return {"INFRA"}
     if kind == "contract":
@@ -600,10 +602,14 @@ def fault_record(idx, scen, faults, fpoints, v):
     base_fd, base_alloc = o_new["nfd"], o_new["nalloc"]
     wired = 1
     cclean = 1
+    launched = 1
     if o_s1["r"] > 0:
         for kx in ("cw", "cx", "pp", "cnb"):
             if kx in exp and o_s1.get(kx) != exp[kx]:
                 wired = 0
+        for kx in ("cprog", "cargv", "cenv", "ccwd"):
+            if kx in exp and o_s1.get(kx) != exp[kx]:
+                launched = 0
         if o_s1.get("cmask") != [] or o_s1.get("cdisp") != []:
             cclean = 0
     mon = []
@@ -616,7 +622,7 @@ def fault_record(idx, scen, faults, fpoints, v):
     childsig = any(fl[0] == 1 and kinds.get((1, fl[1])) in (FK_SIGACTION, FK_SIGMASK, FK_SIGSET) for fl in faults)
     return {
         "id": idx, "faults": [[fl[0], fl[1], fl[2]] for fl in faults], "r": o_s1["r"], "forks": o_s1.get("forks", 0), "left": o_s1.get("left", 0),
-        "pidr": o_pid["r"], "cexec": o_s1.get("cexec", 0) if o_s1["r"] > 0 else 0, "wired": wired,
+        "pidr": o_pid["r"], "cexec": o_s1.get("cexec", 0) if o_s1["r"] > 0 else 0, "wired": wired, "launched": launched,
         "dnfd": o_s1["nfd"] - base_fd, "dnalloc": o_s1["nalloc"] - base_alloc,
         "maskok": 1 if o_s1.get("pmask") == exp.get("pmask", []) else 0, "dispok": 1 if o_s1.get("pdisp") == exp.get("pdisp", []) else 0,
         "cwdok": 1 if o_s1.get("pcwd") == exp.get("pcwd", "/w") else 0, "cclean": cclean,
@@ -1295,7 +1301,7 @@ PROPS = {
     "C01": {"families": ["status", "realstatus", "stop", "two", "free"], "title": "exit status exact, stable, reaped once"},
     "C06": {"families": ["stop", "faults", "two"], "title": "only the own unreaped child is signalled or waited for"},
     "C07": {"families": ["stop", "free"], "title": "stop sequences"},
-    "C03": {"families": ["env", "env2", "conc", "real"], "title": "launch fidelity: argv, environment, working directory, program resolution"},
+    "C03": {"families": ["env", "env2", "faults", "conc", "real"], "title": "launch fidelity: argv, environment, working directory, program resolution"},
     "C12": {"families": ["env", "env2", "faults", "conc", "threads", "real"], "title": "start leaves the caller untouched and gives the child a clean signal state"},
     "C10": {"families": ["wiring", "restart", "real"], "title": "each standard stream is connected exactly where the options say"},
     "C11": {"families": ["wiring", "env2", "conc", "real"], "title": "nothing else is inherited"},
